@@ -52,6 +52,7 @@ def run(repo: Repo, tier: str, res: CheckResult, seed: int = 0) -> None:
     alias_arguments_by_alias_parameters(repo, res)
     lax_loaders_pass_the_datum(repo, res)
     union_closures_not_shared_across_literals(repo, res)
+    strict_container_exclusions(repo, res)
     res.assumptions = list(ASSUMPTIONS)
 
 
@@ -440,11 +441,33 @@ def literal_rules(repo: Repo, res: CheckResult) -> None:
             which = norm(c.func).split("_")[-1]
             coll = c.args[2] if which == "enum" else c.args[1]
             res.evaluated(f"literal:wrapper-kind:{which}:{norm(coll)}", True)
-            if kinds.get(norm(coll)) != "plain":
-                res.add(Finding("C02", "LITERAL.kind-mismatch", m.rel, "LiteralProvider._make_loader", norm(c)[:120],
-                                f"the {which} wrapper compares a loaded {which} value with `{norm(coll)}`, which holds "
-                                f"{kinds.get(norm(coll), 'unknown')} entries ((type, value) pairs): no loaded member ever matches, so "
-                                f"{which} cases of the Literal cannot be loaded in this mode", c.lineno))
+            # how the wrapper tests membership: `v in coll` (plain) or `(type(v), v) in coll` (typed)
+            wfn = ci.methods.get(norm(c.func).split(".")[-1])
+            if wfn is None:
+                raise AnalysisError(f"anchor vanished: LiteralProvider.{norm(c.func)}")
+            wparams = func_params(wfn)
+            cparam = wparams[3] if which == "enum" else wparams[2]
+            tests = [t for t in ast.walk(wfn) if isinstance(t, ast.Compare) and len(t.ops) == 1 and isinstance(t.ops[0], ast.In)
+                     and any(isinstance(x, ast.Name) and x.id == cparam for x in ast.walk(t.comparators[0]))]
+            if not tests:
+                raise AnalysisError(f"LiteralProvider.{wfn.name}: no membership test against `{cparam}`")
+            for t in tests:
+                typed_test = isinstance(t.left, ast.Tuple) and len(t.left.elts) == 2 and norm(t.left.elts[0]) == f"type({norm(t.left.elts[1])})" \
+                    and norm(t.comparators[0]) == cparam
+                test_kind = "typed" if typed_test else "plain"
+                if kinds.get(norm(coll)) != test_kind:
+                    res.add(Finding("C02", "LITERAL.kind-mismatch", m.rel, "LiteralProvider._make_loader", norm(c)[:120],
+                                    f"the {which} wrapper tests `{norm(t)}` ({test_kind}) against `{norm(coll)}`, which holds "
+                                    f"{kinds.get(norm(coll), 'unknown')} entries: no loaded member ever matches, so "
+                                    f"{which} cases of the Literal cannot be loaded in this mode", c.lineno))
+                if not typed_test:
+                    # a member of an enum with an int / str / bytes mixin equals its plain value (IntE.A == 1 == True): an untyped
+                    # test lets the enum loader's result for ANOTHER member pass as the listed plain value
+                    res.add(Finding("C02", "LITERAL.wrapper-membership-untyped", m.rel, f"LiteralProvider.{wfn.name}", norm(t),
+                                    f"`{norm(t)}`: the value the {which} loader produced is accepted when it EQUALS a case; members of "
+                                    "mixed-in enums equal plain values, so load(1, Literal[True, IntE.B]) returns IntE.A (== True), a "
+                                    "value the Literal does not list; the class has to take part: (type(v), v) in <typed collection>",
+                                    t.lineno))
     res.count("LITERAL.wrapper-sites", n, 3)
     # every return path of _make_loader wraps enum / bytes cases when they exist
     res.evaluated("literal:all-paths-wrap", True)
@@ -748,6 +771,26 @@ def whole_fraction_split(repo: Repo, res: CheckResult) -> None:
                                     f"`{pt}` truncates the scaled fraction: binary floats make 2.3 % 1 * 10**6 == 299999.99999999994, so the "
                                     "value the dumper emitted (2.3) is loaded as 2.299999; the scaled fraction has to be rounded",
                                     call.lineno))
+    # the same conversion written without a split: the datum handed to timedelta() through float(). The loader accepts exact
+    # numbers (int, Decimal); a double has 53 bits, so microseconds are lost beyond ~1e10 s and Decimal ties round differently
+    for fn in [f for f in ast.walk(m.tree) if isinstance(f, ast.FunctionDef)]:
+        ps = func_params(fn)
+        if not ps:
+            continue
+        d = ps[0]
+        for call in ast.walk(fn):
+            if isinstance(call, ast.Call) and norm(call.func) in ("timedelta", "datetime.timedelta"):
+                parts = list(call.args) + [k.value for k in call.keywords]
+                lossy = [c for p_ in parts for c in ast.walk(p_) if isinstance(c, ast.Call) and norm(c.func) == "float"
+                         and c.args and norm(c.args[0]) == d]
+                if lossy:
+                    n += 1
+                    res.evaluated(f"split:{m.qualname(fn)}:{norm(call)[:50]}", True)
+                    res.add(Finding("C02", "SPLIT.exact-datum-through-float", m.rel, m.qualname(fn), norm(call)[:120],
+                                    f"`{norm(call)[:100]}` converts the datum to a double before timedelta() splits it: the loader accepts "
+                                    "exact numbers (int, Decimal) whose microseconds do not survive 53 bits "
+                                    "(Decimal('86400000000.000001') loses the microsecond, Decimal('1.0000005') rounds the other way); "
+                                    "the documented representation is the number of seconds, not its nearest double", call.lineno))
     res.count("SPLIT.sites", n, 1)
 
 
@@ -868,3 +911,20 @@ def union_closures_not_shared_across_literals(repo: Repo, res: CheckResult) -> N
                             "the union closure is memoised under a key in which the Literal cases are a plain tuple: (0, 1) == "
                             "(False, True), so the union requested second on a retort gets the closure of the first -- its own "
                             "Literal members are no longer recognised (KeyError / dumped by the wrong rule). " + f.message[:120], f.line))
+
+
+def strict_container_exclusions(repo: Repo, res: CheckResult) -> None:
+    """'takes any iterable excluding str and Mapping' (iterables, constant-length tuples): the strict loaders exclude exactly by
+    `type(data) is str` and `isinstance(data, Mapping)`. A look-alike test (`hasattr(data, "keys")`, a duck-typed helper)
+    rejects iterables that are not Mappings (sqlite3.Row, any class with a keys() method). Audit shared with C07."""
+    from . import c07
+    sub = CheckResult("C07")
+    c07.sibling_pairs(repo, c07.Resolver(repo), sub)
+    n = sum(1 for k in sub.nontrivial if str(k).startswith("docguard:"))
+    res.evaluated("container:strict-exclusions", True)
+    for f in sub.findings:
+        if f.rule == "DOC.strict-guards-missing":
+            res.add(Finding("C02", "DOC.strict-exclusion-not-the-documented-test", f.file, f.qualname, f.construct,
+                            "the documented rule excludes exactly str and collections.abc.Mapping; the strict loader tests "
+                            f"`{f.construct[:120]}` instead, so it rejects (or admits) other data than the rule says: " + f.message[:160], f.line))
+    res.count("DOC.strict-container-loaders", n, 4)
